@@ -8,6 +8,7 @@ mod codec;
 mod common;
 mod distsim;
 mod drawspace;
+mod ffisim;
 mod fwsim;
 mod mach;
 mod props_budget;
@@ -46,6 +47,7 @@ fn engine_for(prop: &str) -> Option<Box<dyn Engine>> {
         "C17" => Box::new(props_sim::SimEngine(props_simtimers::C17)),
         "C18" => Box::new(props_sim::SimEngine(props_simtimers::C18)),
         "C19" => Box::new(props_sim::SimEngine(props_sim::C19)),
+        "C20" => Box::new(ffisim::C20),
         _ => return None,
     })
 }
